@@ -9,6 +9,7 @@ import (
 	"math"
 	"os"
 	"path/filepath"
+	"strings"
 
 	"github.com/advancedclimatesystems/gonnx"
 	"github.com/advancedclimatesystems/gonnx/onnx"
@@ -252,55 +253,71 @@ func c18Structured(c *Ctx) {
 			g.Initializer = inits
 		}
 		tp := inits[r.Intn(len(inits))]
-		switch r.Intn(11) {
-		case 10:
-			for i := range tp.Dims {
-				tp.Dims[i] = -tp.Dims[i]
+		// one to three perturbations of the same initializer (a check that guards one field may
+		// be switched off by another field)
+		nPert, whats := r.PickInt(1, 1, 1, 2, 2, 3), []string{}
+		for ; nPert > 0; nPert-- {
+			switch r.Intn(14) {
+			case 11:
+				tp.DataLocation = onnx.TensorProto_EXTERNAL
+				what = "initializer data_location EXTERNAL"
+			case 12:
+				tp.ExternalData = append(tp.ExternalData, &onnx.StringStringEntryProto{Key: "location", Value: "weights.bin"}, nil)
+				what = "initializer external_data entries"
+			case 13:
+				tp.Segment = &onnx.TensorProto_Segment{Begin: int64(r.Range(-2, 5)), End: int64(r.Range(-2, 5))}
+				what = "initializer segment"
+			case 10:
+				for i := range tp.Dims {
+					tp.Dims[i] = -tp.Dims[i]
+				}
+				if len(tp.Dims)%2 == 1 || r.Chance(0.3) {
+					tp.Dims = append(tp.Dims, -1)
+				}
+				what = "initializer dims all negated (product unchanged)"
+			case 0:
+				if len(tp.Dims) > 0 {
+					tp.Dims[r.Intn(len(tp.Dims))] = int64(-r.Range(1, 5))
+				} else {
+					tp.Dims = []int64{-1}
+				}
+				what = "initializer dim negative"
+			case 1:
+				tp.Dims = append(tp.Dims, 0)
+				what = "initializer extra zero dim"
+			case 2:
+				tp.Dims = append(tp.Dims, int64(r.PickInt(1<<20, 1<<31-1))*int64(r.PickInt(1, 1<<20)))
+				what = "initializer huge dim"
+			case 3:
+				tp.Dims = []int64{math.MaxInt64, math.MaxInt64, 2}
+				what = "initializer overflowing dims"
+			case 4:
+				tp.DataType = int32(r.Range(-1, 24))
+				what = fmt.Sprintf("initializer data_type %d", tp.DataType)
+			case 5:
+				if len(tp.RawData) > 0 {
+					tp.RawData = tp.RawData[:r.Intn(len(tp.RawData))]
+				} else {
+					tp.RawData = []byte{1, 2, 3}
+				}
+				what = "initializer raw_data shortened / inconsistent"
+			case 6:
+				tp.RawData = append(tp.RawData, byte(r.U64()), byte(r.U64()), byte(r.U64()))
+				what = "initializer raw_data extended"
+			case 7:
+				tp.FloatData = append(tp.FloatData, 1.5)
+				tp.Int64Data = append(tp.Int64Data, 7)
+				what = "initializer typed fields populated inconsistently"
+			case 8:
+				tp.Dims = nil
+				what = "initializer dims removed"
+			case 9:
+				tp.RawData, tp.FloatData, tp.Int32Data, tp.Int64Data, tp.DoubleData, tp.Uint64Data = nil, nil, nil, nil, nil, nil
+				what = "initializer payload removed"
 			}
-			if len(tp.Dims)%2 == 1 || r.Chance(0.3) {
-				tp.Dims = append(tp.Dims, -1)
-			}
-			what = "initializer dims all negated (product unchanged)"
-		case 0:
-			if len(tp.Dims) > 0 {
-				tp.Dims[r.Intn(len(tp.Dims))] = int64(-r.Range(1, 5))
-			} else {
-				tp.Dims = []int64{-1}
-			}
-			what = "initializer dim negative"
-		case 1:
-			tp.Dims = append(tp.Dims, 0)
-			what = "initializer extra zero dim"
-		case 2:
-			tp.Dims = append(tp.Dims, int64(r.PickInt(1<<20, 1<<31-1))*int64(r.PickInt(1, 1<<20)))
-			what = "initializer huge dim"
-		case 3:
-			tp.Dims = []int64{math.MaxInt64, math.MaxInt64, 2}
-			what = "initializer overflowing dims"
-		case 4:
-			tp.DataType = int32(r.Range(-1, 24))
-			what = fmt.Sprintf("initializer data_type %d", tp.DataType)
-		case 5:
-			if len(tp.RawData) > 0 {
-				tp.RawData = tp.RawData[:r.Intn(len(tp.RawData))]
-			} else {
-				tp.RawData = []byte{1, 2, 3}
-			}
-			what = "initializer raw_data shortened / inconsistent"
-		case 6:
-			tp.RawData = append(tp.RawData, byte(r.U64()), byte(r.U64()), byte(r.U64()))
-			what = "initializer raw_data extended"
-		case 7:
-			tp.FloatData = append(tp.FloatData, 1.5)
-			tp.Int64Data = append(tp.Int64Data, 7)
-			what = "initializer typed fields populated inconsistently"
-		case 8:
-			tp.Dims = nil
-			what = "initializer dims removed"
-		case 9:
-			tp.RawData, tp.FloatData, tp.Int32Data, tp.Int64Data, tp.DoubleData, tp.Uint64Data = nil, nil, nil, nil, nil, nil
-			what = "initializer payload removed"
+			whats = append(whats, what)
 		}
+		what = strings.Join(whats, " + ")
 	case 6:
 		g.Initializer = append(g.Initializer, nil)
 		what = "nil initializer entry"
